@@ -750,9 +750,15 @@ func compactToSliceOfSlice(compact [][2]int) [][]int {
 //	process(buf)
 func (r *Regex) AppendAllIndex(dst [][2]int, b []byte, n int) [][2]int {
 	if n == 0 {
-		return nil
+		return dst
 	}
-	return r.engine.FindAllIndicesStreaming(b, n, dst)
+	// The engine fills the slice it is given from index 0, so hand it the unused
+	// tail of dst: what dst already holds stays in front of the new matches.
+	matches := r.engine.FindAllIndicesStreaming(b, n, dst[len(dst):])
+	if len(dst) == 0 {
+		return matches
+	}
+	return append(dst, matches...)
 }
 
 // AppendAllStringIndex appends all successive match index pairs for the string
